@@ -296,6 +296,8 @@ def run(chk):
     loopback_table(chk, a, "A")
     from . import c08
     c08.join_rules(chk, a, "R5.pool_drop")
+    # requests accepted before the signal sit in the pool's queue in front of the Shutdown message: every queued task is still run
+    c08.isolation_rules(chk, a)
     d = chk.use(core.load("D", fresh=(chk.tier == "thorough")))
     threaded_run(chk, d, "D", "humphrey::app::App::<State>::run_tls")
     b = chk.use(core.load("B", fresh=(chk.tier == "thorough")))
